@@ -73,7 +73,10 @@ def make_resolvers():
         return 1
     def varargs(root, ctx, info, *args):
         return 1
-    return {"exact": exact, "default": default, "kwargs": kwargs, "missing": missing, "few": few, "varargs": varargs}
+
+    def short(root, ctx, a=None):
+        return 1
+    return {"exact": exact, "default": default, "kwargs": kwargs, "missing": missing, "few": few, "varargs": varargs, "short": short}
 
 
 def _memo_worker(hists):
